@@ -1,13 +1,13 @@
 --------------------------- MODULE MCCascadeEnum ---------------------------
 (* Stand-alone instance of Cascade.tla (run: tlc -config MCCascadeEnum.cfg    *)
 (* MCCascadeEnum.tla): start level 1, T = 2, Float, every one of the 4 leaves *)
-(* absent or one of three matrices (entirely undefined / full / diagonal),    *)
+(* absent or one of three matrices (entirely undefined / full / -7, +inf, undefined, 10),    *)
 (* both row orders, stale files at every position that has a child.  The      *)
 (* checks generate the larger families (checks/c02.py, checks/c14.py).        *)
 EXTENDS MCCascade
 Ms == {<<<<<<>>, <<>>>>, <<<<>>, <<>>>>>>,
        <<<<<<1>>, <<2>>>>, <<<<3>>, <<5>>>>>>,
-       <<<<<<-7>>, <<>>>>, <<<<>>, <<10>>>>>>}
+       <<<<<<-7>>, <<1, 0>>>>, <<<<>>, <<10>>>>>>}
 MCCases == EnumCases("Float", TRUE, FALSE, LeafMapsOver(Ms), <<4>>, TRUE)
            \cup EnumCases("Float", FALSE, FALSE, LeafMapsOver(Ms), <<4>>, TRUE)
 =============================================================================
